@@ -2,7 +2,7 @@
 use crate::engine::Engine;
 use crate::explore::Scenario;
 use crate::util::*;
-use may::sync::Mutex;
+use may::sync::{Condvar, Mutex};
 use std::sync::atomic::{AtomicBool, AtomicU32, Ordering};
 use std::sync::{Arc, TryLockError};
 
@@ -131,7 +131,7 @@ fn run_held(e: &'static Engine, workers: usize, parts: &'static [(char, &'static
 /// store-buffer member: a harness thread holds the lock, the coroutine W queues up and is cancelled; the holder unlocks
 /// in the instant in which W has registered its release (label behind SyncBlocker::set_release), i.e. while W is between
 /// "release := true" and its second look at "unparked". Whoever loses that handshake must pass the lock on.
-fn handoff_vs_cancel(e: &'static Engine, workers: usize, second_waiter: bool) {
+pub fn handoff_vs_cancel(e: &'static Engine, workers: usize, second_waiter: bool) {
     rt_init(workers);
     let m = Arc::new(Mutex::new(0u32));
     static HELD: std::sync::atomic::AtomicBool = std::sync::atomic::AtomicBool::new(false);
@@ -176,6 +176,74 @@ fn handoff_vs_cancel(e: &'static Engine, workers: usize, second_waiter: bool) {
     e.note(&format!("w={} store_buffer={}", if rw.is_ok() { "ok" } else { "cancel" }, e.tso_used()));
 }
 
+/// the mutex released and re-taken inside Condvar::wait / wait_timeout: participant 0 (a coroutine) enters the lock,
+/// waits on the condvar (`timed`: wait_timeout(1ms)) and is cancelled there; the others use the lock meanwhile
+/// (ops L / Y), the main thread finally notifies. Oracle as for `run`.
+fn via_condvar(e: &'static Engine, workers: usize, timed: bool, others: &'static [(char, &'static str)], main_ops: &'static str, cancel: bool) {
+    rt_init(workers);
+    let m = Arc::new(Mutex::new(0u32));
+    let cv = Arc::new(Condvar::new());
+    e.begin();
+    let (m0, cv0) = (m.clone(), cv.clone());
+    let w = go!(move || {
+        let mut g = m0.lock().unwrap();
+        critical(e, &mut g);
+        let mut g = if timed { cv0.wait_timeout(g, std::time::Duration::from_millis(1)).unwrap().0 } else { cv0.wait(g).unwrap() };
+        critical(e, &mut g);
+    });
+    let mut hs = vec![];
+    for (k, o) in others.iter() {
+        let m = m.clone();
+        hs.push(spawn_part(e, *k, move || ops(e, &m, o)));
+    }
+    if cancel {
+        unsafe { w.coroutine().cancel() };
+    }
+    ops(e, &m, main_ops);
+    if !timed && !cancel {
+        // the waiter needs a notification; repeat it until the waiter is through (it may not be waiting yet)
+        while !w.is_done() {
+            cv.notify_one();
+            e.vsleep(1_000_000);
+        }
+    }
+    let mut out = String::new();
+    match w.join() {
+        Ok(()) => out.push_str("ok "),
+        Err(p) if cancel && p.downcast_ref::<generator::Error>().is_some() => out.push_str("cancel "),
+        Err(_) => e.fail("unexpected_panic", "the condvar waiter panicked"),
+    }
+    for (i, h) in hs.into_iter().enumerate() {
+        match join_part(e, h) {
+            Ok(()) => out.push_str("ok "),
+            Err(true) => e.fail("cancel_unasked", &format!("participant {} ended with Cancel but was not cancelled", i + 1)),
+            Err(false) => e.fail("unexpected_panic", &format!("participant {} panicked", i + 1)),
+        }
+    }
+    if DOUBLE.load(Ordering::SeqCst) {
+        e.fail("mutual_exclusion", "two participants were inside the critical section at the same time");
+    }
+    match m.try_lock() {
+        Ok(g) => {
+            let n = ENTRIES.load(Ordering::SeqCst);
+            if *g != n {
+                e.fail("lost_update", &format!("{} critical sections ran but the protected value is {}", n, *g));
+            }
+            out.push_str(&format!("entries={}", n));
+        }
+        Err(TryLockError::WouldBlock) => e.fail("not_released", "all participants are done but try_lock() says WouldBlock"),
+        Err(TryLockError::Poisoned(_)) => e.fail("poisoned", "mutex poisoned although nobody panicked inside it"),
+    }
+    // and the lock still works: a blocking lock() returns
+    let m2 = m.clone();
+    let t = e.spawn("late_locker", move || {
+        let mut g = m2.lock().unwrap_or_else(|p| p.into_inner());
+        *g += 1;
+    });
+    e.join(t);
+    e.note(&out);
+}
+
 fn mk(workers: usize, parts: &'static [(char, &'static str)], main_ops: &'static str, cancel: Option<usize>) -> Scenario {
     let name = format!(
         "mutex.{}.main{}{}{}",
@@ -216,6 +284,27 @@ pub fn build(quick: bool) -> Vec<Scenario> {
         for parts in [&[('C', "L")][..], &[('C', "L"), ('C', "L")], &[('C', "L"), ('T', "L")]] {
             let parts: &'static [(char, &'static str)] = parts;
             v.push(Scenario::new("C05", "mutex_held", format!("mutex.held.{}.w{}.cancel0", parts_name(parts), w), Arc::new(move |e| run_held(e, w, parts, 0))).tier(quick));
+        }
+    }
+    // the lock released and re-taken inside Condvar::wait / wait_timeout, with the waiter cancelled / timing out there
+    for w in [1usize, 2] {
+        for timed in [false, true] {
+            for (others, main_ops, cancel) in [(&[('C', "L")][..], "Y", true), (&[('T', "L")][..], "L", true), (&[('C', "L")][..], "L", false)] {
+                let others: &'static [(char, &'static str)] = others;
+                if quick && w == 2 && !cancel {
+                    continue;
+                }
+                v.push(
+                    Scenario::new(
+                        "C05",
+                        "mutex_via_condvar",
+                        format!("mutex.via_condvar.{}.{}.main{}.w{}{}", if timed { "wait_timeout" } else { "wait" }, parts_name(others), main_ops, w, if cancel { ".cancel0" } else { "" }),
+                        Arc::new(move |e| via_condvar(e, w, timed, others, main_ops, cancel)),
+                    )
+                    .vt_horizon(100_000_000)
+                    .tier(quick),
+                );
+            }
         }
     }
     // store-buffer model (x86-TSO on the shim atomics): the cancel / hand-off handshake of SyncBlocker
